@@ -169,6 +169,21 @@ def lean_obligations(ctx):
     return out
 
 
+GEN_MODULES = ["Arith", "Details", "Bytes", "Limit", "Footer", "Fast", "Realloc", "Reset", "NewChunk", "Slow", "Iter", "RawVec", "Rewind"]
+
+
+def gen_diff(ctx):
+    """Model-level witness search (lean/Driver/GenDiff.lean): the translated bodies (regenerated from the current source)
+    against the hand model on boundary arguments and small arena states.  Returns the GENDIFF lines (possibly none)."""
+    with Lock("lean"):
+        rc, txt = sh("lake build " + " ".join("BumpVerif.Gen.Fn" + g for g in GEN_MODULES), cwd=LEAN, timeout=1200)
+        if rc != 0:
+            return ["# GenDiff not run: a generated file does not compile: " + " ".join(re.findall(r"error: ([^\n]*)", txt)[:2])]
+        rc, txt = sh("lake env lean --run Driver/GenDiff.lean", cwd=LEAN, timeout=900)
+    lines = [l for l in txt.split("\n") if l.startswith("GENDIFF")]
+    return lines or ["# GenDiff produced no output: " + txt[-200:]]
+
+
 def theorem_at(loc):
     """name of the declaration enclosing file:line:col"""
     try:
@@ -281,9 +296,20 @@ def verdict(ctx, proof, run, fam):
         if not infra:
             ctx.log("obligation/correspondence broken: widening the search for a failing input")
             found = fam.search(ctx, run, proof)
+        # a translated function body no longer equals the model: look for a concrete argument / state on which they differ
+        gd = []
+        if any("GenFn" in (b["name"] + b["why"]) or b["name"].startswith("gen_") for b in broken):
+            ctx.log("an equivalence theorem (generated body = model) is broken: model-level witness search (GenDiff)")
+            try:
+                gd = gen_diff(ctx)
+            except Exception as e:
+                gd = [f"# GenDiff failed: {e}"]
         if found:
             path = os.path.join(ctx.replaydir, f"{ctx.prop}-{stamp}-{found['name']}.replay")
-            open(path, "w").write(fam.make_replay(ctx, found, found.get("run", run)))
+            text = fam.make_replay(ctx, found, found.get("run", run))
+            if gd:
+                text += "".join(f"# model-level witness: {l[:1500]}\n" for l in gd)
+            open(path, "w").write(text)
             lines.append(f"VIOLATION property={ctx.prop} replay={path}")
         else:
             path = os.path.join(ctx.replaydir, f"{ctx.prop}-{stamp}-unproved.replay")
@@ -291,6 +317,8 @@ def verdict(ctx, proof, run, fam):
                 fh.write(f"# property {ctx.prop}: no longer shown to hold; no failing input found by the search\n")
                 for b in broken:
                     fh.write(f"# broken obligation: {b['name']}: {b['why']}\n")
+                for l in gd:
+                    fh.write(f"# model-level witness (source as translated vs hand model): {l[:1500]}\n")
                 for d in diffs[:20]:
                     fh.write(f"# correspondence: {d['text']}\n")
                 if infra:
